@@ -1709,3 +1709,19 @@ def check_C16(env):
 CHECKS['C15'] = check_C15
 CHECKS['C16'] = check_C16
 MODULE_OF['Simulator'] = 'simulator'
+
+
+def _with_fuzz(prop, check):
+    """the hand-written histories first, then random plans (rt/fuzz.py) from the same generator"""
+    def run(env):
+        for c in check(env):
+            yield c
+        from rt import fuzz
+        for c in fuzz.fuzz(prop, env):
+            yield c
+    run.__name__ = getattr(check, '__name__', 'check') + '_with_random_plans'
+    return run
+
+
+for _p in ('C04', 'C05', 'C07', 'C08', 'C09', 'C10', 'C17', 'C19', 'C20'):
+    CHECKS[_p] = _with_fuzz(_p, CHECKS[_p])
